@@ -26,9 +26,9 @@ class VarLenArray:
             max_size = max(sizes)
             if all(size == max_size for size in sizes):
                 return self.__class__(np.concatenate(arrays))
-            ret = np.zeros_like(self.array, shape=(sum(lens), max_size))
+            ret = np.zeros((sum(lens), max_size), dtype=np.result_type(*arrays))
             for end, l, a, size in zip(accumulate(lens), lens, arrays, sizes):
-                ret[end - l : end, -size:] = a
+                ret[end - l : end, max_size - size:] = a
             return self.__class__(ret)
         if func == np.equal:
             raise Exception()
